@@ -8,6 +8,21 @@ ALL = [f'C{i:02d}' for i in range(1, 21)]
 
 # property -> (level text, level note, technique, design section)
 CHECKS = {
+    'C11': (
+        'Lean 4 theorem for every value tree: the shared-object mechanism of the JSON format (VAL / REF markers: the key of a SerializableByKey object is taken '
+        'before its contents are written, equal objects met later become references, the reader registers a value when its JSON object closes) round-trips — '
+        'readJson (toJson v) = some v for all v, any nesting, shared objects inside shared objects, any number of occurrences (C11_roundtrip; state-threaded induction '
+        'with the invariant that an unresolved key belongs to an enclosing, strictly larger object, so no reference to it can be emitted); a second occurrence is '
+        'always a reference (C11_second_occurrence_is_ref). T2: for generated nestings of real frozen circuits the markers of the text cirq.to_json emits, in '
+        'document order, must equal those of the model applied to the tree of _json_dict_ values; the value-level clauses are evaluated on an instance pool (every '
+        'stored example of the five packages + generated gates / tagged operations / circuits / circuit operations / sweeps / results / symbolic values, alone and nested '
+        'in lists, tuples and dicts): read(write(x)) == x with equal hash, eval(repr(x)) == x, deepcopy and pickle equal with equal hash; every stored .json / '
+        '.json_inward document reads to the value of its .repr; qid comparisons are total orders consistent with equality and hashing.',
+        'Trusted: Lean kernel; harness + driver; python json / pickle / copy modules; the abstraction of objects to trees of _json_dict_ values; == of the library; '
+        'the per-class _json_dict_ / _from_json_dict_ pairs are covered by T2 on the instance pool only (no per-class Lean model).',
+        'Lean 4 proof (state-threaded structural induction over value trees) + differential correspondence on emitted documents and an instance pool',
+        'DESIGN.md §3 C11',
+    ),
     'C17': (
         'Lean 4: Spec/Vendor.lean transcribes the vendors\' gate definitions (IonQ QIS gates generic in angle / amplitude types, IonQ native GPI / GPI2 / MS / ZZ, '
         'AQT R / MS / Z) and the little-endian outcome encoding. Props.C17: exact kernel-decided identities of the QIS gates in Q(zeta_8) (matrices of h, y, t, v; '
